@@ -154,6 +154,9 @@ def laguerre_der(n, alpha, x):
         d/dx of generalized laguerre polynomial evaluated at the given points
 
     """
+    if n == 0:
+        return np.zeros_like(x)
+
     # see wiki
     # d^k/dx^k L_n^alpha = (-1)^k L_(n-k)^(alpha+k)
     k = 1
